@@ -437,6 +437,8 @@ class Model:
                         self.slots[(c, s2)][mode] = (vc, vf)
                 return
             if len(pair_tables) != 1:
+                if self._switch_tables_by_evaluation(f):
+                    return
                 raise AnalysisError("anchor vanished: the mode tables (dict literals of dict literals) not found in Options.set_lsb0")
             n = pair_tables[0]
             halves = [{}, {}]
@@ -470,6 +472,56 @@ class Model:
         for mode, d in self.switch.items():
             for (c, s), (vc, vf, _) in d.items():
                 self.slots[(c, s)][mode] = (vc, vf)
+
+    def _switch_tables_by_evaluation(self, f):
+        """No literal table to read: evaluate set_lsb0 for the option true and false (rules/peval.py, nothing is executed) and
+        collect what it installs - setattr(Class, 'slot', Class.variant) calls and Class.slot = Class.variant assignments,
+        whatever loops, f-strings or getattr spell them.  True if both evaluations give a complete, equal set of slots."""
+        from .rules.peval import PEval, Unsupported, is_const
+        tables = {}
+        for flag, mode in ((True, 'lsb0'), (False, 'msb0')):
+            env = {'self._lsb0': flag}
+            try:
+                pe = PEval(self, f, env)
+                # the first statement stores the flag (self._lsb0 = bool(value)): evaluate with the parameter set as well
+                for p_ in f.params()[1:]:
+                    pe.env[p_] = flag
+                pe.run()
+            except (Unsupported, RecursionError, Exception):
+                return False
+            if len(pe.final_envs) != 1:
+                return False
+            d = {}
+
+            def cls_of(v):
+                return v[1].split('.')[-1] if isinstance(v, tuple) and len(v) == 2 and v[0] == 'sym' else None
+
+            def fn_of(v):
+                if isinstance(v, tuple) and len(v) == 2 and v[0] == 'sym' and '.' in v[1]:
+                    parts = v[1].split('.')
+                    return parts[-2], parts[-1]
+                return None
+            for name, args, node, _k in pe.calls:
+                if name == 'setattr' and len(args) == 3 and isinstance(args[1], str) and cls_of(args[0]) and fn_of(args[2]):
+                    d[(cls_of(args[0]), args[1])] = fn_of(args[2]) + (getattr(node, 'lineno', f.node.lineno),)
+            for k, v in pe.final_envs[0].items():
+                if '.' in k and not k.startswith('self.') and fn_of(v) and k.count('.') == 1:
+                    c, slot = k.split('.')
+                    if c in self.classes:
+                        d[(c, slot)] = fn_of(v) + (f.node.lineno,)
+            tables[mode] = d
+        if not tables['lsb0'] or set(tables['lsb0']) != set(tables['msb0']) or len(tables['lsb0']) < 8:
+            return False
+        if not all(vc in self.classes and vf in self.classes[vc].methods for d in tables.values() for (vc, vf, _l) in d.values()):
+            return False
+        self.switch = tables
+        self.switch_names = {'lsb0': '<evaluated>', 'msb0': '<evaluated>'}
+        self.switch_pair_index = None
+        self.switch_evaluated = True
+        for mode, d in self.switch.items():
+            for (c, s2), (vc, vf, _) in d.items():
+                self.slots[(c, s2)][mode] = (vc, vf)
+        return True
 
     def _registry(self):
         tree = self.mods.get('__init__')
